@@ -214,6 +214,8 @@ def checker_factory(modname):
                 continue
             used = True
             sw.obligations.append((oid + '/presence+independence', 'proved' if ok else 'refuted', ''))
+            if ok:
+                sw.__dict__.setdefault('established', set()).add((L, g.__name__))      # length of the canonical number, generator
             # alteration: any other alphanumeric character at one check position is rejected
             if modname in ALTERNATIVES:
                 sw.obligations.append((oid + '/alteration', 'skipped', 'documented alternative: ' + ALTERNATIVES[modname]))
@@ -256,9 +258,9 @@ def checker_factory(modname):
     return checker, rels
 
 
-def completion_symbolic(modname, rels, lengths, tier):
+def completion_symbolic(modname, rels, lengths, tier, established=None):
     """the converse direction as an obligation: for every payload over the alphanumeric alphabet, at every length at which the
-    format accepts anything, the payload completed with the generated check character(s) never reaches a `raise
+    generator relation was established on the accepting paths (presence obligation), the payload completed with the generated check character(s) never reaches a `raise
     InvalidChecksum` of validate().  -> (obligations, findings, undecided)"""
     from ..explore import explore_closure, witness_string
     mod = importlib.import_module(modname)
@@ -280,6 +282,8 @@ def completion_symbolic(modname, rels, lengths, tier):
             arg = indices(arg_e, var.split(':')[0], n)
             if not pos or not arg or op not in ('NotEq', 'Eq') or any(i >= n or i < -n for i in pos + arg):
                 continue
+            if established is not None and (n, g.__name__) not in established:
+                continue      # not shown to be the scheme of this length (formats with several presentations, e.g. it.aic base 32)
             app.append((g, [i % n for i in arg], [i % n for i in pos]))
         if not app:
             continue
@@ -363,7 +367,8 @@ def _task(arg):
             return dict(module=modname, norel=True, findings=[], obligations=[], undecided=[], samples=[], stats={})
         sw = accept.AcceptSweep(modname, lengths, ch, tier, 150 if tier == 'quick' else 900, 'C05')
         res = sw.run()
-        ob, fi, un = completion_symbolic(modname, rels, lengths, tier)
+        est = getattr(sw, 'established', set())
+        ob, fi, un = completion_symbolic(modname, rels, sorted({L_ for L_, _ in est}), tier, est)
         res['obligations'] = list(res['obligations']) + ob
         res['findings'] = list(res['findings']) + fi
         return res
